@@ -86,6 +86,7 @@ CHECKS = {
         "assumptions": ["sync.Pool is a LIFO stack: Get returns the most recently Put object (realisable on a single P without GC), PoolGC empties the pools"],
         "runs": [
             {"pkg": "pkg/sql/ast", "harness": "VxC09_Clean", "generate": "c09_pools", "expect_asserts": ["C09.clean"]},
+            {"pkg": "pkg/sql/ast", "harness": "VxC09_ASTContainer", "expect_asserts": ["C09.clean_container"]},
             {"pkg": "pkg/gosqlx", "harness": "VxC09_History3", "tiers": ["quick"], "args": {"replace": "context.WithTimeout=VxTimeoutCtx"}},
             {"pkg": "pkg/gosqlx", "harness": "VxC09_History4", "tiers": ["thorough"], "args": {"replace": "context.WithTimeout=VxTimeoutCtx"}},
             {"pkg": TOK, "harness": "VxC09_TokAlias3", "tiers": ["quick"]},
@@ -147,6 +148,17 @@ CHECKS = {
             {"pkg": "pkg/lsp", "harness": "VxC18_Mirror1L", "tiers": ["thorough"], "generic": ["panic"]},
             {"pkg": "pkg/lsp", "harness": "VxC18_Mirror2", "tiers": ["thorough"], "generic": ["panic"], "thorough": {"timeout": 7200}},
             {"pkg": "pkg/lsp", "harness": "VxC18_Framing4", "tiers": ["thorough"], "generic": ["panic"]},
+        ],
+    },
+    "C10": {
+        "bounds": {"quick": "metrics kernel: 2 goroutines, each one RecordTokenization with a symbolic query size (0..999) and symbolic error flag, every interleaving at sync/atomic and mutex granularity with at most 2 preemptions; 2 goroutines RecordParse / RecordPoolGet / RecordPoolPut with symbolic statement counts; after quiescence operations, errors, bytes, min, max, statements, pool counters and the error map equal the true values",
+                   "thorough": "3 goroutines"},
+        "outside": "REDUCED CLAIM. Not claimed: 'every call returns what it returns alone' for arbitrary mixes of tokenize/parse/format/extract/scan/lint on N goroutines and data-race freedom of the whole library under the Go memory model (schedule space and heap of whole-program concurrent runs are beyond a path-forking engine; isolation of instances is what C08/C09 establish sequentially: no mutable state flows between holders except through pools); schedules with more than 2 preemptions; ast.SetSpan's unguarded global map",
+        "assumptions": ["sequentially consistent atomics; scheduling points = sync/atomic operations, mutex operations, goroutine exit"],
+        "runs": [
+            {"pkg": "pkg/metrics", "harness": "VxC10_Metrics2", "tiers": ["quick", "thorough"], "engine_only_asserts": ["C10.operations", "C10.errors", "C10.bytes", "C10.min", "C10.max", "C10.error_map"], "expect_asserts": ["C10.bytes", "C10.min", "C10.max"]},
+            {"pkg": "pkg/metrics", "harness": "VxC10_ParsePool2", "tiers": ["quick", "thorough"], "engine_only_asserts": ["C10.parse_ops", "C10.statements", "C10.pool"], "expect_asserts": ["C10.statements"]},
+            {"pkg": "pkg/metrics", "harness": "VxC10_Metrics3", "tiers": ["thorough"], "engine_only_asserts": ["C10.operations", "C10.errors", "C10.bytes", "C10.min", "C10.max", "C10.error_map"], "thorough": {"timeout": 7200}},
         ],
     },
     "C11": {
